@@ -77,6 +77,11 @@ where
         if !self.visit_index(&index) {
             self.process_unvisited_index(index, handler)
         } else {
+            if index.index.is_edge() {
+                self.algorithm
+                    .expand(index, self.graph, self.storage, false);
+            }
+
             Ok(true)
         }
     }
